@@ -133,14 +133,13 @@ func reply(s *eng.Session, q string) string {
 }
 
 type Case struct {
-	ID      int      `json:"id"`
-	Kind    string   `json:"kind"` // table | view | trigger | procedure
-	Name    string   `json:"name"`
-	Prereq  []string `json:"prereq"` // statements executed before the object's CREATE (also in the fresh database)
-	Create  string   `json:"create"`
-	Probes  []string `json:"probes"`
-	Tags    []string `json:"tags"`
-	projSQL map[string]string
+	ID     int      `json:"id"`
+	Kind   string   `json:"kind"` // table | view | trigger | procedure
+	Name   string   `json:"name"`
+	Prereq []string `json:"prereq"` // statements executed before the object's CREATE (also in the fresh database)
+	Create string   `json:"create"`
+	Probes []string `json:"probes"`
+	Tags   []string `json:"tags"`
 }
 
 func projQueries(kind, name string) map[string]string {
@@ -425,7 +424,6 @@ func (g *gen) table(id int) *Case {
 		parts = append(parts, fmt.Sprintf("%s k%d (%s)", kind, k+1, def))
 	}
 	// check constraints
-	var badInserts []string
 	for k, nk := 0, g.r.Intn(3); k < nk; k++ {
 		cname := ""
 		if g.chance(2) {
@@ -514,7 +512,6 @@ func (g *gen) table(id int) *Case {
 		}
 	}
 	probes = append(probes, row("-5", ""), "DELETE FROM t1 WHERE c1 = -5", row("7", ""), "DELETE FROM t1 WHERE c1 = 7", row("3000", ""), "DELETE FROM t1 WHERE c1 = 3000")
-	probes = append(probes, badInserts...)
 	var sel []string
 	for _, c := range cols {
 		sel = append(sel, c.name)
@@ -704,9 +701,6 @@ func main() {
 		if r := s.Exec(c.Create); r.Kind != "ok" && r.Kind != "rows" {
 			rejected++
 			rejMsgs[c.Kind+": "+msgClass(r.Msg)]++
-			if len(rep.Samples) < 0 {
-				rep.Samples = append(rep.Samples, map[string]string{"rejected": c.Create, "msg": r.Msg})
-			}
 			continue
 		}
 		o1, err := observe(s, c)
